@@ -192,6 +192,28 @@ pub fn fault_counts(sc: &Scenario, rec: &RunRecord) -> BTreeMap<&'static str, u6
             1,
         );
     }
+    if sc.immediate_p > 0 && sc.runtime == crate::run::RuntimeKind::Sim {
+        // requests of a kind that suspends which were nevertheless answered at once
+        let completed: std::collections::BTreeSet<u64> = rec.log.iter().filter_map(|e| if let Ev::Complete { rid } = e { Some(*rid) } else { None }).collect();
+        let mut kinds: BTreeMap<u64, Kind> = BTreeMap::new();
+        let mut n = 0u64;
+        for e in &rec.log {
+            match e {
+                Ev::Start { rid, kind, .. } => {
+                    kinds.insert(*rid, *kind);
+                }
+                Ev::Deliver { rid } => {
+                    if let Some(k) = kinds.get(rid) {
+                        if sc.yield_mask & k.bit() != 0 && !completed.contains(rid) {
+                            n += 1;
+                        }
+                    }
+                }
+                _ => {}
+            }
+        }
+        add("answered_at_once_by_a_suspending_provider", n);
+    }
     let mut last_registered: Option<u64> = None;
     let mut reorder = 0u64;
     for e in &rec.log {
